@@ -842,6 +842,8 @@ def stepAll (d : DW) (line : String) : DW × String :=
   | ["fork", _, _] => (d, "ok")
   | ["efork"] => (d, "ok")       -- … of the environment
   | ["mfork"] => (d, "ok")
+  | ["cogb"] => (d, "ok")        -- a look-up of an existing reward observer by its base class: returns a subscriber, creates nothing
+  | ["draw"] => (d, "ok")        -- a Gantt chart of the live schedule is drawn and thrown away: looking changes nothing
   | ["stamp"] => (d, "ok")       -- the caller writes notes into `Schedule.metadata`: a dictionary of the user's, no part of the state
   | ["xform"] => (d, "ok")       -- instance transformations applied to the instance produce NEW instances: nothing changes here
   | ["disp", j, p, m] =>
